@@ -48,7 +48,7 @@ func vStubFragmentsIdx(r *reader.Reader, p *pages.Page) ([]text.TextFragment, er
 //symgo:redirect (*github.com/tsawler/tabula/reader.Reader).GetPage vStubGetPageIdx
 //symgo:redirect (*github.com/tsawler/tabula/reader.Reader).ExtractTextFragments vStubFragmentsIdx
 //symgo:redirect (*github.com/tsawler/tabula/reader.Reader).Close vStubClose
-//symgo:desc 5-page stub document (reader cut at PageCount/GetPage/ExtractTextFragments/Close): title page without marginal text, pages 2..5 with the same header (drawn bare, padded with a trailing or leading blank, or containing the year range 2023-2024 - enumerated) and footer; selection = one or two pages out of 2..5 (enumerated), exclusion = headers, footers or both (enumerated), API = Text, Lines or Paragraphs (enumerated): the excluded marginal text does not appear in the output and the body text of every selected page does. (Enumerated structure; concrete fragments)
+//symgo:desc 5-page stub document (reader cut at PageCount/GetPage/ExtractTextFragments/Close): title page without marginal text, pages 2..5 with the same header (drawn bare, padded with a trailing or leading blank, or containing the year range 2023-2024 - enumerated) and footer; selection = one or two pages out of 2..5 (enumerated), exclusion = headers, footers or both (enumerated), API = Text, Lines, Paragraphs or Fragments (enumerated): the excluded marginal text does not appear in the output and the body text of every selected page does. (Enumerated structure; concrete fragments)
 func H_C11_filter_uses_document_page_index() {
 	vPageCount = 5
 	vCloseCalls, vCloseErr = 0, false
@@ -72,7 +72,13 @@ func H_C11_filter_uses_document_page_index() {
 		e = e.ExcludeHeadersAndFooters()
 	}
 	var out string
-	switch vAnyIntIn(0, 2) {
+	switch vAnyIntIn(0, 3) {
+	case 3:
+		fs, _, err := e.Fragments()
+		vAssert("no-error", err == nil)
+		for _, f := range fs {
+			out += f.Text + "\n"
+		}
 	case 0:
 		s, _, err := e.Text()
 		vAssert("no-error", err == nil)
@@ -170,5 +176,57 @@ func H_C10_selection_spelling_is_irrelevant() {
 	want := run(mk(0))
 	got := run(mk(vAnyIntIn(1, 4)))
 	vAssert("same-result-however-the-set-is-spelled", got == want)
+	vReach("end")
+}
+
+// a 3-page stub document whose pages have a running header, a page number and two columns of vColLines lines
+var vColLines = 9
+
+func vStubFragmentsTwoCol(r *reader.Reader, p *pages.Page) ([]text.TextFragment, error) {
+	res, err := p.Resources()
+	if err != nil {
+		return nil, err
+	}
+	idx := int(res.Get("VIndex").(core.Int))
+	out := []text.TextFragment{{Text: "Quarterly Report", X: 72, Y: 760, Width: 120, Height: 10, FontSize: 10}}
+	for i := 0; i < vColLines; i++ {
+		y := float64(700 - 14*i)
+		out = append(out, text.TextFragment{Text: "left" + string(rune('a'+i)) + " words in column one", X: 72, Y: y, Width: 200, Height: 10, FontSize: 10})
+		out = append(out, text.TextFragment{Text: "right" + string(rune('a'+i)) + " words in column two", X: 330, Y: y, Width: 200, Height: 10, FontSize: 10})
+	}
+	out = append(out, text.TextFragment{Text: string(rune('1' + idx)), X: 300, Y: 30, Width: 6, Height: 10, FontSize: 10})
+	return out, nil
+}
+
+// H_C11_exclusion_keeps_the_order_of_what_it_keeps: the filtered text is the unfiltered text minus some fragments, in
+// the same order - also when removing the marginal fragments moves the page across a threshold of the layout heuristics.
+//
+//symgo:harness prop=C11 kernel=K5-exclusion-keeps-order noreplay=1
+//symgo:redirect (*github.com/tsawler/tabula/reader.Reader).PageCount vStubPageCount
+//symgo:redirect (*github.com/tsawler/tabula/reader.Reader).GetPage vStubGetPageIdx
+//symgo:redirect (*github.com/tsawler/tabula/reader.Reader).ExtractTextFragments vStubFragmentsTwoCol
+//symgo:redirect (*github.com/tsawler/tabula/reader.Reader).Close vStubClose
+//symgo:desc 3-page stub document (reader cut): every page has a running header, a page number and two columns of 8, 9 or 10 lines (enumerated; 9 lines = 20 fragments, the multi-column heuristic's minimum, so that removing header and number drops the page to 18); page 1, 2 or 3 selected (enumerated): the body markers (lefta.., righta..) of Text() with header/footer exclusion are exactly those of Text() without it, in the same order, and the header text is gone
+func H_C11_exclusion_keeps_the_order_of_what_it_keeps() {
+	vPageCount = 3
+	vCloseCalls, vCloseErr = 0, false
+	vColLines = vAnyIntIn(8, 10)
+	pg := vAnyIntIn(1, 3)
+	e := &Extractor{format: format.PDF, reader: &reader.Reader{}, readerOpened: true, ownsReader: false, options: defaultOptions()}
+	plain, _, err1 := e.Pages(pg).Text()
+	excl, _, err2 := e.Pages(pg).ExcludeHeadersAndFooters().Text()
+	vAssert("no-error", err1 == nil && err2 == nil)
+	markers := func(s string) string {
+		var seq []string
+		for _, w := range strings.Fields(s) {
+			if strings.HasPrefix(w, "left") || strings.HasPrefix(w, "right") {
+				seq = append(seq, w)
+			}
+		}
+		return strings.Join(seq, " ")
+	}
+	vAssert("unfiltered-has-every-body-line", len(strings.Fields(markers(plain))) == 2*vColLines)
+	vAssert("filtered-keeps-body-in-the-same-order", markers(excl) == markers(plain))
+	vAssert("running-header-removed", !strings.Contains(excl, "Quarterly Report"))
 	vReach("end")
 }
